@@ -187,10 +187,10 @@ class Section(Entity):
         if not isinstance(obj, Section):
             raise TypeError("Object to be copied is not a Section")
 
-        if obj.parent is not None:
-            src = "{}/{}".format("sections", obj.name)
-        else:
-            src = "{}/{}".format("metadata", obj.name)
+        # copy the HDF5 group of the section itself: looking the source up by
+        # name below its parent finds the wrong section (or none) when another
+        # section has the same id, e.g. a copy made with keep_id=True
+        src = obj._h5group.group
 
         clsname = "sections"
         if not name:
@@ -200,10 +200,10 @@ class Section(Entity):
             raise NameError("Name already exist. Possible solution is to "
                             "provide a new name when copying destination "
                             "is the same as the source parent")
-        sec = obj._parent._h5group.copy(source=src, dest=self._h5group,
-                                        name=name, cls=clsname,
-                                        shallow=not children,
-                                        keep_id=keep_id)
+        sec = self._h5group.copy(source=src, dest=self._h5group,
+                                 name=name, cls=clsname,
+                                 shallow=not children,
+                                 keep_id=keep_id)
 
         if not children:
             for prop in obj.props:
